@@ -363,6 +363,32 @@ def c05(ctx):
             chk_scalar_profile(ctx, "spike-multi", 65, [False, m, ri, iv, TL, None], 61, [False, m, ri, TL, None], 28, ivs)
             chk_scalar_profile(ctx, "sync-multi", 66, [False, mt, m, iv, TL, None], 62, [False, mt, m, TL, None], 34, ivs)
         chk_scalar_profile(ctx, "order-multi", 72, [False, True, mt, m, TL, None], 63, [False, mt, m, TL, None], 34, None)
+        # index selections in arbitrary order (pairs are oriented by position for the signed order measure)
+        n = len(L)
+        ix = [Nat(i) for i in r.sample(range(n), r.randint(2, n))]
+        chk_scalar_profile(ctx, "isi-multi-idx", 64, [False, m, None, TL, ix], 60, [False, m, TL, ix], 23, None)
+        chk_scalar_profile(ctx, "sync-multi-idx", 66, [False, mt, m, None, TL, ix], 62, [False, mt, m, TL, ix], 34, None)
+        chk_scalar_profile(ctx, "order-multi-idx", 72, [False, True, mt, m, TL, ix], 63, [False, mt, m, TL, ix], 34, None)
+        # MRTS='auto': the scalar route and the profile route must use the same pooled threshold
+        sts = ctx.impl.trains(TL)
+        q = ctx.impl._quiet
+        ivp = r.choice(intervals_for(r, g, 1))
+        ivf = None if ivp is None else (float(ivp[0]), float(ivp[1]))
+        for name, fs, fp, kw in (("isi", ctx.ps.isi_distance, ctx.ps.isi_profile, {}),
+                                 ("spike", ctx.ps.spike_distance, ctx.ps.spike_profile, {"RI": ri}),
+                                 ("sync", ctx.ps.spike_sync, ctx.ps.spike_sync_profile, {"max_tau": float(mt)})):
+            sv = core.call_impl(lambda: q(lambda: fs(sts, interval=ivf, MRTS='auto', **kw)))
+            pv = core.call_impl(lambda: q(lambda: fp(sts, MRTS='auto', **kw).avrg(ivf)))
+            ctx.check()
+            if not (isinstance(sv, float) and isinstance(pv, float) and core.close(sv, pv)):
+                ctx.violate("%s: MRTS='auto' scalar != average of the MRTS='auto' profile" % name, name + "_distance",
+                            [TL, repr(ivf)], expected=pv, got=sv)
+        sv = core.call_impl(lambda: ctx.ps.spike_train_order(sts, MRTS='auto', max_tau=float(mt)))
+        pv = core.call_impl(lambda: ctx.ps.spike_train_order_profile(sts, MRTS='auto', max_tau=float(mt)).avrg())
+        ctx.check()
+        if not (isinstance(sv, float) and isinstance(pv, float) and core.close(sv, pv)):
+            ctx.violate("order: MRTS='auto' scalar != average of the MRTS='auto' profile", "spike_train_order",
+                        [TL], expected=pv, got=sv)
     ctx.corr(cases, lambda rid, a: True)
 
 
@@ -971,6 +997,50 @@ def c10(ctx):
                             expected=i3, got=[i1, i2], rid=rid)
             if not feq(full, none):
                 ctx.violate("integral over full support != integral()", str(rid), base, expected=none, got=full, rid=rid)
+    # queries interleaved with operations on the SAME object: integral / avrg / evaluation must
+    # always describe the object's current state (no stale cached value)
+    import numpy as np
+    for _ in range(ctx.n(150 if ctx.tier == "quick" else 2000)):
+        for kind in ("pwc", "pwl"):
+            mk = gen.rand_pwc if kind == "pwc" else gen.rand_pwl
+            cls = ctx.ps.PieceWiseConstFunc if kind == "pwc" else ctx.ps.PieceWiseLinFunc
+            integ = int_pwc if kind == "pwc" else int_pwl
+            f0, g0 = mk(r, 3, 8), mk(r, 3, 8)
+            f = cls(*[np.array(core.fl(a), dtype=float) for a in f0])
+            g = cls(*[np.array(core.fl(a), dtype=float) for a in g0])
+            log = []
+            ok = True
+            for step in range(r.randint(2, 5)):
+                op = r.choice(["mul", "add", "copy", "none"])
+                q = ctx.impl._quiet
+                before = core.call_impl(lambda: q(lambda: f.integral()))
+                if op == "mul":
+                    c = r.choice([2.0, -1.0, 0.5, 3.0])
+                    f.mul_scalar(c)
+                    log.append(["mul", c])
+                elif op == "add":
+                    f.add(g)
+                    log.append(["add"])
+                elif op == "copy":
+                    f = f.copy()
+                    log.append(["copy"])
+                cur = [[Fr(v).limit_denominator(10 ** 9) for v in a.tolist()] for a in _arrs(f)]
+                want = float(integ(cur))
+                a_, b_ = float(cur[0][0]), float(cur[0][-1])
+                got_none = core.call_impl(lambda: q(lambda: f.integral()))
+                got_full = core.call_impl(lambda: q(lambda: f.integral((a_, b_))))
+                got_avrg = core.call_impl(lambda: q(lambda: f.avrg()))
+                ctx.check()
+                if not (isinstance(got_none, float) and core.close(got_none, want) and isinstance(got_full, float)
+                        and core.close(got_full, want) and isinstance(got_avrg, float)
+                        and core.close(got_avrg, want / (b_ - a_))):
+                    ctx.violate("integral()/avrg() after %r does not describe the current function" % (log,),
+                                kind + " query sequence", [list(f0), list(g0)], expected=want,
+                                got=[got_none, got_full, got_avrg])
+                    ok = False
+                    break
+            if ok:
+                ctx.nontrivial(("c10seq", kind, repr(log), core.enc([list(f0), list(g0)])))
     spec_vs_impl(ctx, quads, "integral/evaluation == exact definition (overlap integral, limits)")
     ctx.corr(cases, lambda rid, a: len(a[0]) >= 3)
     # integer-valued input (psth counts)
